@@ -305,7 +305,8 @@ class patched_open:
 
         def wrapper(path, mode="r", *a, **k):
             f = builtins.open(path, mode, *a, **k)
-            if str(path).endswith(".pymoca_cache") and any(c in mode for c in "wax+"):
+            # (also a temporary sibling such as X.pymoca_cache.tmp that is renamed into place)
+            if ".pymoca_cache" in os.path.basename(str(path)) and any(c in mode for c in "wax+"):
                 plan = plans.get(threading.get_ident(), plans.get(None))
                 if plan is not None:
                     plan.opened += 1
